@@ -42,6 +42,26 @@ def _(c):
             c.ensure(lab + '/commutes', val.eq(list(r2.ival), list(r.ival)))
     c.ensure('nonvacuous', True)
 
+@obligation(P, 'crysp.poly.SubPoly.binop/whole-stated-domain', cls='L', tiers=('thorough',), timeout=600,
+            funcs=['crysp.poly.SubPoly.__add__', 'crysp.poly.SubPoly.__sub__', 'crysp.poly.SubPoly.__xor__', 'crysp.poly.SubPoly.__and__', 'crysp.poly.SubPoly.__or__', 'crysp.poly.SubPoly.e', 'crysp.poly.SubPoly.__setitem__', 'crysp.poly.SubPoly.__init__'],
+            cases=lambda tier: [{'op': o, 'k': k, 'm': m} for o in OPS for k in range(0, 65) for m in range(0, 21, 3)],
+            note='the whole range the property quantifies over: every ring k = 0..64 and every pair of dimensions 0..20 x 0..20, coefficients symbolic over their full range (k = 0: integers in [-2^70, 2^70])')
+def _(c):
+    op, k, m0 = c.case('op'), c.case('k'), c.case('m')
+    for m in range(m0, min(m0 + 3, 21)):
+        for n in range(0, 21):
+            a = c.poly('a%d_%d_' % (m, n), m, k); b = c.poly('b%d_%d_' % (m, n), n, k)
+            sa, sb = snap(a), snap(b)
+            r = c.binop(op, a, b)
+            lab = '%s(%d,%d)' % (op, m, n)
+            wf(c, lab, r, k, max(m, n))
+            exp = [red(OPS[op](at(sa[0], i), at(sb[0], i)), k) for i in range(max(m, n))]
+            c.ensure(lab + '/coefficients', val.eq(list(r.ival), exp))
+            same(c, lab + '/a', a, sa); same(c, lab + '/b', b, sb)
+            if op != '-':
+                r2 = c.binop(op, b, a)
+                c.ensure(lab + '/commutes', val.eq(list(r2.ival), list(r.ival)))
+
 @obligation(P, 'crysp.poly.SubPoly.unary/post', cls='B', bound='dimensions 0..4 (quick), rings as above', funcs=['crysp.poly.SubPoly.__neg__', 'crysp.poly.SubPoly.__lshift__', 'crysp.poly.SubPoly.__rshift__', 'crysp.poly.SubPoly.is_zero', 'crysp.poly.SubPoly.__eq__', 'crysp.poly.SubPoly.__ne__'],
             cases=lambda tier: [{'k': k, 'm': m} for k in RINGS for m in dims(tier)])
 def _(c):
@@ -60,6 +80,27 @@ def _(c):
             r = c.binop('>>', a, sh)
             wf(c, 'shr%d' % sh, r, k, m); c.ensure('shr%d/coefficients' % sh, val.eq(list(r.ival), [x >> sh for x in sa[0]]))
     same(c, 'unary/a', a, sa)
+
+@obligation(P, 'crysp.poly.SubPoly.unary/whole-stated-domain', cls='L', timeout=600, funcs=['crysp.poly.SubPoly.__neg__', 'crysp.poly.SubPoly.__lshift__', 'crysp.poly.SubPoly.__rshift__'],
+            cases=lambda tier: [{'k': k} for k in range(0, 65)],
+            note='the whole range the property quantifies over: every ring k = 0..64 and every dimension 0..20, coefficients symbolic over their full range: negation, additive inverse, shifts by 0, 1, 3, k-1, k, k+1')
+def _(c):
+    k = c.case('k')
+    for m in range(0, 21):
+        a = c.poly('a%d_' % m, m, k); sa = snap(a)
+        r = c.unop('-', a)
+        wf(c, 'neg(%d)' % m, r, k, m)
+        c.ensure('neg(%d)/coefficients' % m, val.eq(list(r.ival), [red(-x, k) for x in sa[0]]))
+        z = c.binop('+', a, r)
+        c.ensure('neg(%d)/additive-inverse' % m, val.eq(list(z.ival), [0] * m))
+        for sh in sorted({0, 1, 3, max(k - 1, 0), k, k + 1}):
+            if k == 0 and sh > 3: continue
+            r = c.binop('<<', a, sh)
+            wf(c, 'shl%d(%d)' % (sh, m), r, k, m); c.ensure('shl%d(%d)/coefficients' % (sh, m), val.eq(list(r.ival), [red(x << sh, k) for x in sa[0]]))
+            if k:
+                r = c.binop('>>', a, sh)
+                wf(c, 'shr%d(%d)' % (sh, m), r, k, m); c.ensure('shr%d(%d)/coefficients' % (sh, m), val.eq(list(r.ival), [x >> sh for x in sa[0]]))
+        same(c, 'unary(%d)/a' % m, a, sa)
 
 def _in_range_slices(m):
     out = []
